@@ -124,7 +124,9 @@ pub fn simultaneous_dial_tie_breaking(
     )
 }
 
-pub use crate::network::verif_hooks::VerifBackoff;
+pub use crate::network::verif_hooks::{
+    VerifActivePeers, VerifBackoff, VerifConnection, VerifConnectionManager, VerifEndpoint,
+};
 
 //
 // Socket injection (endpoint.rs)
@@ -145,4 +147,49 @@ pub(crate) fn socket_override(
     socket: &std::net::UdpSocket,
 ) -> Option<std::sync::Arc<dyn quinn::AsyncUdpSocket>> {
     SOCKET_FACTORY.read().unwrap().as_ref().and_then(|f| f(socket))
+}
+
+//
+// Trace points and the jitter override (network/connection_manager.rs)
+//
+
+static TRACE: std::sync::Mutex<Option<Vec<String>>> = std::sync::Mutex::new(None);
+static TRACE_SEQ: std::sync::atomic::AtomicU64 = std::sync::atomic::AtomicU64::new(0);
+
+/// Starts (with `true`) or stops recording trace lines; returns what was recorded so far.
+pub fn trace_enable(on: bool) -> Vec<String> {
+    let mut g = TRACE.lock().unwrap();
+    let old = g.take().unwrap_or_default();
+    if on {
+        *g = Some(Vec::new());
+    }
+    old
+}
+
+/// Takes the trace lines recorded so far (recording continues).
+pub fn trace_take() -> Vec<String> {
+    let mut g = TRACE.lock().unwrap();
+    match g.as_mut() {
+        Some(v) => std::mem::take(v),
+        None => Vec::new(),
+    }
+}
+
+pub(crate) fn trace(line: String) {
+    let mut g = TRACE.lock().unwrap();
+    if let Some(v) = g.as_mut() {
+        let seq = TRACE_SEQ.fetch_add(1, std::sync::atomic::Ordering::SeqCst);
+        v.push(format!("{seq} {line}"));
+    }
+}
+
+static JITTER: std::sync::Mutex<Option<Duration>> = std::sync::Mutex::new(None);
+
+/// Replaces the random tick jitter of `ConnectionManager::start` (reproducibility only).
+pub fn set_jitter_override(jitter: Option<Duration>) {
+    *JITTER.lock().unwrap() = jitter;
+}
+
+pub(crate) fn jitter_override() -> Option<Duration> {
+    *JITTER.lock().unwrap()
 }
